@@ -4,6 +4,7 @@ OBLIGATIONS = [
     ob('C13.cmp.datetime', CMP + 'c13_cmp_datetime', 'for all i64 t, a <= b: = iff a<=t<=b, != its complement, < iff t<a, > iff t>b, <= iff t<=b, >= iff t>=a (DateTime arm of conforms)', units=['cmp']),
     ob('C13.trichotomy', CMP + 'c13_trichotomy', 'for all t and intervals: exactly one of <, =, > holds, and != is the complement of =', units=['cmp']),
 ]
+OBLIGATIONS.append(ob('C13.precision', 'verif_frag::dateprecision::c13_precision', 'time-of-day block of parse_datetime (verbatim): a literal with day / hour / minute / second precision yields start = the given fields padded with 0 and finish = padded with 23:59:59 (closed interval it covers); a time of day outside 00:00:00..23:59:59 is rejected before chrono is called (no unwrap on None); for all captured values < 100', units=['dateprecision']))
 CANARIES = [dict(harness=CMP + 'canary_cmp_must_fail', units=['cmp'])]
 ASSUMPTIONS = ['the interval [start, finish] delivered by Variant::to_datetime / parse_datetime satisfies start <= finish (requires; not proved: regex + chrono)',
                'timestamps are i64 seconds (and_utc().timestamp() of chrono, replaced by an identity shim in the fragment)']
